@@ -3,6 +3,9 @@
 #include <string_view>
 #include <unordered_map>
 #include <functional>
+#include <atomic>
+#include <mutex>
+#include <shared_mutex>
 
 
 
@@ -40,6 +43,11 @@ namespace sqf
                 static std::unordered_map<unsigned short, std::string> map = std::unordered_map<unsigned short, std::string>();
                 return map;
             }
+            static std::shared_mutex& registry_mutex()
+            {
+                static std::shared_mutex mutex;
+                return mutex;
+            }
         public:
             template<typename T>
             class extend;
@@ -56,6 +64,8 @@ namespace sqf
 
             std::string_view to_string() const
             {
+                // types get registered on first use, possibly by another thread (eg. another runtime being created)
+                std::shared_lock<std::shared_mutex> lock(registry_mutex());
                 auto& map = namemap();
                 return { map.at(m_value) };
             }
@@ -83,21 +93,25 @@ namespace sqf
         class type::extend : public type
         {
         private:
-            static inline unsigned short s_local_type_value = 0;
+            static inline std::atomic<unsigned short> s_local_type_value = 0;
         public:
             extend() : type()
             {
-                if (s_local_type_value == 0)
-                {
-                    s_local_type_value = ++s_type_value;
-                    m_value = s_local_type_value;
-                    typemap_nc()[T::name()] = *this;
-                    namemap_nc()[*this] = T::name();
+                auto local_type_value = s_local_type_value.load(std::memory_order_acquire);
+                if (local_type_value == 0)
+                { // first use of this type in the process: register it, unless another thread is faster
+                    std::unique_lock<std::shared_mutex> lock(registry_mutex());
+                    local_type_value = s_local_type_value.load(std::memory_order_relaxed);
+                    if (local_type_value == 0)
+                    {
+                        local_type_value = ++s_type_value;
+                        m_value = local_type_value;
+                        typemap_nc()[T::name()] = *this;
+                        namemap_nc()[*this] = T::name();
+                        s_local_type_value.store(local_type_value, std::memory_order_release);
+                    }
                 }
-                else
-                {
-                    m_value = s_local_type_value;
-                }
+                m_value = local_type_value;
             }
         };
     }
